@@ -17,7 +17,7 @@ func init() { register("C16", checkC16) }
 func (c *Ctx) fieldWriters(t *types.Named, name string) []*ssa.Store {
 	var out []*ssa.Store
 	for _, fn := range c.LibFuncs() {
-		allInstrs(fn, false, func(in ssa.Instruction) {
+		rawInstrs(fn, false, func(in ssa.Instruction) {
 			st, ok := in.(*ssa.Store)
 			if !ok {
 				return
